@@ -1,7 +1,7 @@
 (* C05 -- Persisting the conductor and restoring it changes nothing.
    Property theorems only; proofs are in proofs/C05Proofs.v. *)
 From Coq Require Import String List Bool ZArith.
-From Orq Require Import GenStatuses GenEvents Base State Machines Codec Conductor Decode Api Driver C05Proofs.
+From Orq Require Import GenStatuses GenEvents Base State Machines Codec Conductor Decode Api C05Proofs.
 Import ListNotations.
 Open Scope string_scope.
 
